@@ -26,7 +26,7 @@ func init() {
 	})
 	register(&propDef{
 		id:      "C38",
-		explain: "Structural necessary conditions of 'pipelined calls with a deadline return by the deadline': in the deadline call path of the pipelining client every blocking channel operation is a select that includes the call's timer (or has a default); once the timer case of a select was taken no further blocking channel operation is executed before the function returns, the returned error is ErrTimeout, and a work item that was never queued is given back; the queue-overflow error of the non-deadline call is only produced on the default branch of a non-blocking send. Not decided: actual latency, server stalls, goroutine scheduling.",
+		explain: "Structural necessary conditions of 'pipelined calls with a deadline return by the deadline': in the deadline call path of the pipelining client every blocking channel operation is a select that includes the call's timer (or has a default); once the timer case of a select was taken no further blocking channel operation is executed before the function returns, the returned error is ErrTimeout, and a work item that was never queued is given back; the queue-overflow error of the non-deadline call is only produced on the default branch of a non-blocking send. (R4) every value the connection's writer and reader goroutines store into a work item's error field is non-nil on the path of the store (a sentinel, or a value a branch found non-nil), so a failed item never looks answered. Not decided: actual latency, server stalls, goroutine scheduling.",
 		run:     runC38,
 	})
 }
@@ -489,6 +489,7 @@ func runPipelineCaller(p *Prog, r *Report, prop string) {
 
 func runC38(p *Prog, r *Report) {
 	timerArmedWithCheckedDuration(p, r)
+	failureCarriesError(p, r)
 	runPipelineCaller(p, r, "C38")
 	// the overflow error of the non-deadline call comes only from the default branch of a non-blocking send
 	fn := p.Func("(*pipelineConnClient).Do")
@@ -1272,4 +1273,69 @@ func loadsFieldThroughPhis(v ssa.Value, fv *types.Var, seen map[ssa.Value]bool) 
 		return true
 	}
 	return false
+}
+
+// failureCarriesError (C38.R4): a call of the pipelining client ends with its
+// response or with an error. The connection's writer and reader goroutines
+// report a failed work item by storing the error into the item and signalling
+// its done channel; a nil stored there makes the caller take the item for
+// answered and return an empty response with a nil error. Every value stored
+// into pipelineWork.err by those goroutines is known to be non-nil on the path
+// of the store: a package-level sentinel, or a value a branch found non-nil.
+func failureCarriesError(p *Prog, r *Report) {
+	n := 0
+	for _, spec := range []string{"(*pipelineConnClient).writer", "(*pipelineConnClient).reader"} {
+		fn := p.Func(spec)
+		if fn == nil {
+			r.Undecided("R4", spec, "not found")
+			continue
+		}
+		type res struct {
+			n, bad int
+			wit    []string
+		}
+		var order []*ssa.Store
+		by := map[*ssa.Store]*res{}
+		x := NewExplorer(p, fn, Hooks{
+			Instr: func(x *Explorer, st *State, in ssa.Instruction) {
+				sto, ok := in.(*ssa.Store)
+				if !ok {
+					return
+				}
+				fa, ok := sto.Addr.(*ssa.FieldAddr)
+				if !ok || typeNameOf(fa.X) != "pipelineWork" || fieldName(fa.X.Type(), fa.Field) != "err" {
+					return
+				}
+				rr := by[sto]
+				if rr == nil {
+					rr = &res{}
+					by[sto] = rr
+					order = append(order, sto)
+				}
+				rr.n++
+				good := globalOf(sto.Val) != "" || x.sentinelOf(st, sto.Val) != nil || x.Eval(st, sto.Val) == True
+				if !good {
+					rr.bad++
+					if rr.wit == nil {
+						rr.wit = x.Path(st)
+					}
+				}
+			},
+		})
+		x.Filter = noIntFilter
+		x.TrackAll = true
+		x.Run(nil)
+		if x.Aborted {
+			r.Undecided("R4", spec, "state budget exhausted")
+			continue
+		}
+		sort.Slice(order, func(i, j int) bool { return order[i].Pos() < order[j].Pos() })
+		for i, sto := range order {
+			n++
+			rr := by[sto]
+			r.Check("R4", fmt.Sprintf("%s: error store #%d into the work item carries a non-nil error", strings.TrimPrefix(spec, "(*pipelineConnClient)."), i+1), rr.bad == 0, p.Pos(sto.Pos()),
+				fmt.Sprintf("%d of %d explored arrivals store a value that is nil or not known to be an error: the waiting call takes the item for answered and returns a blank response with a nil error although its request was sent and never answered", rr.bad, rr.n), rr.wit...)
+		}
+	}
+	r.Floor("R4", "error stores of the pipeline writer and reader", n, 7)
 }
